@@ -1,4 +1,5 @@
 import Sif.Proofs.C18
+import Sif.Proofs.C18Bucket
 import Sif.Spec.C18
 /-
   C18 — Reward and distribution payouts are pro rata to provider units.  Property theorems only.
@@ -36,6 +37,28 @@ theorem bucket_amount_pro_rata {u U B : Nat} {sh a : Dec} (hU : 0 < U)
     ((a.truncateInt.toNat : Nat) : ℚ) ≤ (u : ℚ) / U * B + (B : ℚ) / P ∧
     (u : ℚ) / U * B - 1 - (B : ℚ) / P ≤ ((a.truncateInt.toNat : Nat) : ℚ) :=
   bucketAmount_bound hU h1 h2
+
+/-- epoch bucket payout (fix F26): the amounts handed to the providers of one asset never add up to more
+    than the bucket, for any number of providers and any raw amounts -/
+theorem bucket_amounts_total_le (B : Nat) (raw : List (String × Nat)) :
+    amtTotal (clampAmounts B raw) ≤ B :=
+  clampAmounts_total_le B raw
+
+/-- …the clamp never raises an amount, and it lowers the i-th amount by at most the total overshoot of the
+    rounded shares over the bucket (so nobody is refused a whole reward for want of a few base units) -/
+theorem bucket_amount_clamp_bounds (B : Nat) (raw : List (String × Nat)) (i : Nat) (h : i < raw.length)
+    (h' : i < (clampAmounts B raw).length) :
+    ((clampAmounts B raw)[i]'h').2 ≤ (raw[i]'h).2 ∧
+    (raw[i]'h).2 ≤ ((clampAmounts B raw)[i]'h').2 + (amtTotal raw - B) :=
+  ⟨(clampAmounts_le B raw).2 i h h', clampAmounts_ge B raw i h h'⟩
+
+/- non-vacuity: six equal providers, bucket 6·10¹⁸ — every rounded share is 0.166666666666666667, the raw
+   amounts overshoot the bucket by 12 base units, the last provider gets what is left instead of nothing -/
+example : rewardAmounts [("a", ⟨"p", "a", 1, 0⟩), ("b", ⟨"p", "b", 1, 0⟩), ("c", ⟨"p", "c", 1, 0⟩),
+      ("d", ⟨"p", "d", 1, 0⟩), ("e", ⟨"p", "e", 1, 0⟩), ("f", ⟨"p", "f", 1, 0⟩)] (6 * 10^18)
+    = .ok [("a", 1000000000000000002), ("b", 1000000000000000002), ("c", 1000000000000000002),
+           ("d", 1000000000000000002), ("e", 1000000000000000002), ("f", 999999999999999990)] := by
+  decide +kernel
 
 /- non-vacuity: a concrete distribution over three providers -/
 example : collectProviderDistribution ⟨1000 * 10^18⟩ 3
